@@ -15,6 +15,8 @@ import LinVerif.Lemmas.C01Family
 import LinVerif.Lemmas.C01Sched
 import LinVerif.Lemmas.C01CreateFam
 import LinVerif.Model.C01Switch
+import LinVerif.Lemmas.C01Close
+import LinVerif.Model.C01Alias
 import LinVerif.Generated.C04
 import LinVerif.Generated.C01
 
@@ -768,6 +770,147 @@ OPTIONS holds 2: commits through handle 0 are journaled under an id recovery doe
 theorem open_outside_lock_two_ids :
     let s := C01CF.run ⟨false, false⟩ C01CF.St.init (C01CF.raceSchedule ⟨false, false⟩ 11 "pre-mkfam")
     s.opened = [(11, ⟨0, 2⟩), (11, ⟨1, 1⟩)] ∧ s.options 11 = some 2 ∧ s.fvs 11 = some 2 := by decide
+
+end Counterfactual
+
+/-! ## 10. round 10 — close waits for every started background job; a flush commit is ONE record that carries
+its rollup marks; decoded logs own their bytes -/
+
+section Round10
+open LinVerif.Model
+
+/-- the WaitGroup protocol as the source has it NOW: `condition.Add(1)` precedes the go statement in BOTH
+starters of background jobs (family.compact, family.rollup), a flusher is counted synchronously, and
+family.close waits -/
+def closeCfg : C01Close.Cfg :=
+  ⟨C01Close.addBeforeGoOf Generated.C01.compactStartSteps && C01Close.addBeforeGoOf Generated.C01.rollupStartSteps &&
+     Generated.C01.newFlusherCalls.head? == some "condition.Add",
+   Generated.C01.familyCloseCalls.contains "condition.Wait"⟩
+
+/-- regenerated step-order fact: Add(1) precedes the go statement (c01-18 moves it into the goroutine: the
+list becomes `[CAS, "go", "go:condition.Add", …]` and this fails by name) -/
+theorem tie_job_start_add_before_go : closeCfg = ⟨true, true⟩ := by decide
+
+/-- store.close waits for the families' jobs BEFORE it releases the table cache, the journal and the LOCK -/
+theorem tie_store_close_order :
+    only ["f.close", "cache.Close", "versions.Destroy", "lock.Unlock"] Generated.C01.storeCloseCalls =
+      ["f.close", "cache.Close", "versions.Destroy", "lock.Unlock"] := by decide
+
+/-- **close_waits_for_started_jobs.** For EVERY interleaving (any step list: any number of job starts of any
+family, the jobs' first statements / work steps / Done in any order, the CloseStore call, Wait's return): no
+job executes a step after Wait returned, the WaitGroup never goes negative, and once Wait has returned no
+started job is unfinished. Stated for `closeCfg`, i.e. for the start / close code as regenerated from the
+source. This is what makes `compact` followed by `close` in a history the two complete operations the model
+of histories (`Spec/C01History`) takes them to be. -/
+theorem close_waits_for_started_jobs (steps : List C01Close.Step) :
+    let s := C01Close.run closeCfg {} steps
+    s.late = 0 ∧ s.neg = false ∧ (s.closed = true → s.spawned = 0 ∧ s.running = 0) := by
+  rw [tie_job_start_add_before_go]
+  have h := C01Close.inv_run C01Close.inv_init steps
+  refine ⟨h.late, h.neg, fun hc => ?_⟩
+  have h0 := (h.closed hc).2
+  have hcnt := h.count
+  omega
+
+/-- **jobs_complete_before_close.** After ANY execution in which Wait has returned, a job's first statement
+and a job's work step are not enabled (they leave the state unchanged): every operation of every started job
+precedes the close's own operations (cache.Close, versions.Destroy, lock.Unlock). -/
+theorem jobs_complete_before_close (pre : List C01Close.Step)
+    (hc : (C01Close.run closeCfg {} pre).closed = true) :
+    C01Close.step closeCfg (C01Close.run closeCfg {} pre) .work = C01Close.run closeCfg {} pre ∧
+    C01Close.step closeCfg (C01Close.run closeCfg {} pre) .first = C01Close.run closeCfg {} pre ∧
+    C01Close.step closeCfg (C01Close.run closeCfg {} pre) .start = C01Close.run closeCfg {} pre := by
+  have h := close_waits_for_started_jobs pre
+  simp only at h
+  obtain ⟨_, _, h3⟩ := h
+  obtain ⟨hs, hr⟩ := h3 hc
+  have hcl : (C01Close.run closeCfg {} pre).closing = true := by
+    have hi := C01Close.inv_run C01Close.inv_init pre
+    rw [tie_job_start_add_before_go] at hc
+    have := (hi.closed hc).1
+    rw [tie_job_start_add_before_go]; exact this
+  refine ⟨?_, ?_, ?_⟩
+  · simp [C01Close.step, hr]
+  · simp [C01Close.step, hs]
+  · simp [C01Close.step, hcl]
+
+/-- **flush_commit_carries_marks.** A flush commit of a flusher with a table appends exactly ONE manifest
+record (after the table close), and that record holds the table's NewFile log AND its rollup mark for every
+target interval of the store: by `recover_prefix` the table and its marks are recovered together or not at all. -/
+theorem flush_commit_carries_marks (m m' : Mem) (name size : Nat) (ops : List FsOp) (f : Fam) (fl : Flusher)
+    (n : Int) (c : List (Nat × Nat))
+    (hf : m.fam? name = some f) (hfl : f.flusher = some fl) (hb : fl.builder = some (n, c))
+    (h : flushCommit m name size = some (m', ops)) :
+    ∃ logs, ops = [FsOp.closeTable name n c, FsOp.appendRec m.journal (marshal ⟨f.opt.id, logs ++ [.nextFileNumber m.vs.next]⟩)] ∧
+      Log.newFile 0 n (minKey c) (maxKey c) size ∈ logs ∧ ∀ i ∈ m.cfg.rollup, Log.newRollupFile n i ∈ logs := by
+  unfold flushCommit at h
+  simp only [hf, hfl, hb] at h
+  split at h
+  · simp at h
+  · rename_i m1 ops1 hce
+    simp only [Option.some.injEq, Prod.mk.injEq] at h
+    rcases commit_is_one_record _ _ _ _ _ hce with ⟨hnil, _, _⟩ | ⟨hops, _⟩
+    · exfalso
+      simp [flushCommitSteps] at hnil
+    · rw [hops] at h
+      exact ⟨_, h.2.symm, by simp [flushCommitSteps], by
+        intro i hi
+        simp [flushCommitSteps]
+        exact hi⟩
+
+/-- the store-name decoders take copies: no call in kv/version/log.go hands out a view of the record
+(stream.Reader.ReadSlice, strutil.ByteSlice2String, package unsafe); both decoders read the name with ReadBytes
+and convert with string(..) -/
+def logDecodersCopy : Bool :=
+  Generated.C01.logViewCalls.isEmpty &&
+  only ["reader.ReadBytes", "string"] Generated.C01.newReferenceFileDecodeCalls == ["reader.ReadBytes", "string"] &&
+  only ["reader.ReadBytes", "string"] Generated.C01.deleteReferenceFileDecodeCalls == ["reader.ReadBytes", "string"]
+
+theorem tie_log_decoders_copy : logDecodersCopy = true := by decide
+
+/-- **recovered_names_are_written_names.** For every manifest (any records, names anywhere inside them, any
+lengths — so any pattern of buffer re-use and re-allocation in the entry reader): replay with the decoders as
+regenerated from the source recovers every reference record's store name as it was written. -/
+theorem recovered_names_are_written_names (recs : List C01Alias.Rec) :
+    C01Alias.recoverNames logDecodersCopy recs = recs.map C01Alias.Rec.name := by
+  rw [tie_log_decoders_copy]; exact C01Alias.recoverNames_copies recs
+
+end Round10
+
+namespace Counterfactual
+open LinVerif.Model
+
+/-- c01-18's shape on the model: with `Add(1)` as the goroutine's first statement, Compact() returns, CloseStore's
+Wait sees a zero counter and returns, then the job executes two steps and finishes — on a closed store -/
+theorem add_inside_goroutine_close_returns_early :
+    let s := C01Close.run ⟨false, true⟩ {} C01Close.lateSchedule
+    s.closed = true ∧ s.late = 2 ∧ s.finished = 1 := by decide
+
+/-- the same schedule with the Add before the go statement: Wait is not enabled while the job lives -/
+theorem add_before_go_same_schedule_waits :
+    let s := C01Close.run ⟨true, true⟩ {} C01Close.lateSchedule
+    s.closed = false ∧ s.late = 0 ∧ s.finished = 1 := by decide
+
+/-- c01-17's shape on the model: a reference record named "seg" followed by a record of the same length with
+other bytes at the name's offsets; with a VIEW instead of a copy the recovered name is the later record's bytes -/
+theorem aliased_store_name_changes :
+    C01Alias.recoverNames false [⟨[6, 2, 3, 115, 101, 103], 3, 3⟩, ⟨[0, 4, 9, 9, 9, 9], 0, 0⟩] = [[9, 9, 9], []] ∧
+    C01Alias.recoverNames true [⟨[6, 2, 3, 115, 101, 103], 3, 3⟩, ⟨[0, 4, 9, 9, 9, 9], 0, 0⟩] = [[115, 101, 103], []] := by
+  decide
+
+/-- c01-16's shape on the model: the flush's data logs and its rollup marks committed as TWO records
+(`flushCommit` under a configuration without rollup targets = the data record; `editCommit` = the marks). The
+disk between the two records recovers to the table WITHOUT marks — neither the state before the flush nor
+the state after it. -/
+def splitHistory : List Item :=
+  [.run .openS, .run (.createFamily 10 1), .run (.flushStart 10 [(1, 100)] []), .run (.flushCommit 10 55)]
+
+theorem split_flush_commit_half_applied :
+    (((execAll ⟨2, []⟩ St.init splitHistory).bind (fun s => (openStore ⟨2, [300000]⟩ s.disk).1)).map
+      (fun m => m.vs.fams.map (fun f => (f.ver.files.map (fun e => e.1.2), f.ver.rollup)))) = some [([2], [])] ∧
+    (((execAll ⟨2, [300000]⟩ St.init splitHistory).bind (fun s => (openStore ⟨2, [300000]⟩ s.disk).1)).map
+      (fun m => m.vs.fams.map (fun f => (f.ver.files.map (fun e => e.1.2), f.ver.rollup)))) = some [([2], [(2, [300000])])] := by
+  decide
 
 end Counterfactual
 
